@@ -185,6 +185,11 @@ def cases(tier, seed, args):
         for i in range(12 if q else 80):
             out.append(dict(t='inlinepaf', K=3 + (i // 6) % 2, T=int(rng.integers(5, 10)), F=2 + i % 2, seed=int(rng.integers(1 << 30)),
                             outlier=bool(i % 2)))
+        # long signals (more than 1000 frames): frames at odd positions strongly support the identity, frames at even positions
+        # (or every third, fourth one) weakly support another pairing
+        for i in range(4 if q else 16):
+            out.append(dict(t='inlinepaf', K=2 + i % 2, T=[1500, 2500, 3001, 4100][i % 4], F=2, seed=int(rng.integers(1 << 30)), outlier=False,
+                            comb=[2, 3, 4, 5][i % 4]))
     if prop == 'C09':
         n = 70 if q else 700
         for i in range(n):
@@ -469,6 +474,11 @@ def run_case(case):
         K, T, F = case['K'], case['T'], case['F']
         sp = 3.0 * rng.normal(size=(F, K, T))
         se = 3.0 * rng.normal(size=(F, K, T))
+        if case.get('comb'):
+            cyc = np.roll(np.arange(K), 1)
+            se = 0.5 * sp[:, cyc, :]                     # weak preference for the cyclic pairing everywhere ...
+            off = np.arange(T) % case['comb'] != 0
+            se[:, :, off] = 2.0 * sp[:, :, off]          # ... strong preference for the identity off the comb
         if case['outlier']:
             # the last frames are outliers for every spectral class (-2000 nats) and prefer another pairing, strongly
             se[:, :, -2:] += -2000.0
@@ -500,7 +510,7 @@ def run_case(case):
                 if out is not None and np.allclose(out[f], post, rtol=1e-9, atol=1e-12):
                     chosen.append(pi_ + 1)
             recs.append(dict(kind='inlinepaf', Q=[enc.flt(x) for x in Q], chosen=chosen, exc=exc,
-                             fp=f'fn=inline_pa_integration;float;outlier={case["outlier"]}', key=f'ipaf:{case["seed"]}:{f}'))
+                             fp=f'fn=inline_pa_integration;float;outlier={case["outlier"]};T={"long" if T > 1000 else "short"}', key=f'ipaf:{case["seed"]}:{f}'))
         return recs
     if t == 'inlinepa':
         K, T, F = case['K'], case['T'], case['F']
